@@ -108,3 +108,50 @@ Theorem C02_evaluation_agrees_partial : forall U fuel cmdC, c_behaves U fuel cmd
           exists w, sc_get (i_scopes st') n = Ok w /\ as_str w = s).
 Proof. exact eval_text_agrees. Qed.
 Print Assumptions C02_evaluation_agrees_partial.
+
+(* ---- Proofs/GrammarFacts2.v: the commands invoked are those computed on the tree, in general ----
+   For every well-formed tree (with {*}, with the checker's procedure `c`, any nesting and size):
+   evaluating its text on an interpreter that agrees with the environment [env] (relation Rc2:
+   rec, set and c bound as the checker binds them, scalars and array elements as in env) returns
+   the result `expected` computes, records exactly the commands it lists, in order, and leaves
+   the variables it lists.  `consistent env'`: no name is both a scalar and an array in the final
+   environment (the specification keeps elements as keys "b(1)": C02_spec_array_edge).
+   The only headroom needed is one nesting level for the procedure `c`. *)
+From Molt Require Import Proofs.GrammarFacts2.
+
+Theorem C02_evaluation_agrees : forall U fuel, name_ok (u_alnum U) ->
+  forall sc env trace env' res st,
+  wf sc = true -> star_safe sc = true ->
+  expected env sc = Some (trace, env', res) ->
+  consistent env' ->
+  Rc2 {| g_env := env; g_trace := [] |} st -> i_levels st + 1 < i_limit st ->
+  exists st', eval U (S (S fuel)) st (render sc) = (st', Ok (VStr res))
+    /\ rev (i_trace st') = trace /\ i_levels st' = i_levels st
+    /\ (forall n s, has_char c_lparen n = false -> env_get n env' = Some s ->
+          sc_get (i_scopes st') n = Ok (VStr s))
+    /\ (forall n i s, env_get (akey n i) env' = Some s ->
+          sc_get_elem (i_scopes st') n i = Ok (VStr s)).
+Proof. exact eval_text_agrees2. Qed.
+Print Assumptions C02_evaluation_agrees.
+
+(* the hypotheses are met by the state the checker's prelude builds *)
+Theorem C02_prelude_state_related : Rc2 {| g_env := Molt.Check.C02.c02_env0; g_trace := [] |} prelude_state.
+Proof. exact prelude_Rc2. Qed.
+Print Assumptions C02_prelude_state_related.
+
+(* the checker's procedure c records its arguments and returns the last one, exactly *)
+Theorem C02_procedure_c : forall U f st name_v args c1,
+  name_ok (u_alnum U) ->
+  assoc_get (lit "rec") (i_cmds st) = Some (CmdNative NRecorder c1) ->
+  i_levels st < i_limit st ->
+  run_exec U (S (S f)) st c_proc (name_v :: args)
+  = (set_trace st ((lit "rec" :: lit "c" :: map as_str args) :: i_trace st),
+     Ok (last (VStr (lit "rec") :: VStr (lit "c") :: args) v_empty)).
+Proof. exact c_proc_behaves. Qed.
+Print Assumptions C02_procedure_c.
+
+(* {*}: the specification's splitting of a simple value is the model's list reading *)
+Theorem C02_expansion_splits_as_list : forall s l,
+  split_simple s [] [] = Some l -> v_as_list (VStr s) = inr (map VStr l).
+Proof. exact split_simple_as_list. Qed.
+Print Assumptions C02_expansion_splits_as_list.
